@@ -38,6 +38,7 @@ NEED_TAGS = ["claim:ok", "claim:wrong", "claim:expired", "claim:nopending", "cla
              "start:replaces-pending", "req:dispatched", "req:forbidden", "req:unauthorized",
              "req:status", "req:restart", "req:io.unforce", "req:pair.start", "req:pair.claim", "req:pair.list", "req:pair.revoke"]
 PAIR_OPS = {"Start", "Claim", "List", "Revoke", "RevokeAll"}
+CHUNK = {"quick": 500, "thorough": 1500}     # scripts per harness process / trace file
 
 
 def violated(out):
@@ -48,14 +49,22 @@ def violated(out):
 
 
 def model_check(tier):
-    """The main design-level run: every clause holds, every action is taken."""
-    mc = run_tlc("MCPairing", "MCPairing" if tier == "quick" else "MCPairing_thorough", workers=4 if tier == "quick" else 6, coverage=True,
-                 timeout=900, tag="mc-pairing")
-    cov = mc.get("action_coverage", {})
-    for a in NEED_ACTIONS:
-        if cov.get(a, 0) == 0:
-            raise ToolError(f"vacuous model run: action {a} of MCPairing never taken ({cov})")
-    return mc
+    """The main design-level runs: every clause holds, every action is taken."""
+    total = None
+    for cfg in (["MCPairing"] if tier == "quick" else ["MCPairing_thorough", "MCPairing_thorough2"]):
+        mc = run_tlc("MCPairing", cfg, workers=4 if tier == "quick" else 6, coverage=True, timeout=1500, tag=f"mc-pairing-{cfg}")
+        cov = mc.get("action_coverage", {})
+        for a in NEED_ACTIONS:
+            if cov.get(a, 0) == 0:
+                raise ToolError(f"vacuous model run: action {a} of {cfg} never taken ({cov})")
+        if total is None:
+            total = mc
+        else:
+            total["distinct"] += mc["distinct"]
+            total["generated"] += mc["generated"]
+            total["depth"] = max(total["depth"], mc["depth"])
+            total["action_coverage"] = {a: total["action_coverage"].get(a, 0) + cov.get(a, 0) for a in set(cov) | set(total["action_coverage"])}
+    return total
 
 
 def broken_variants():
@@ -157,14 +166,14 @@ def pairing_stage(rep, tier, work, replay_script=None):
         else:
             fut_mc = pool.submit(model_check, tier)
             fut_bad = pool.submit(broken_variants)
-            n_rand = 400 if tier == "quick" else 24000
+            n_rand = 1200 if tier == "quick" else 24000
             gp = work / "pairing.gen.ndjson"
             tpv(["pairing-gen", "--seed", seed(), "--runs", n_rand, "--out", gp], timeout=600)
             scripts = read_ndjson(gp)
             extra, n_behaviours = tlc_scripts(tier)
             scripts += extra
         # chunks: bounded trace size per TLC run, bounded number of listener threads per harness process
-        size = 400 if tier == "quick" else 1500
+        size = CHUNK[tier]
         chunks = [scripts[i:i + size] for i in range(0, len(scripts), size)]
         futs = [pool.submit(run_chunk, i, c, work, shm) for i, c in enumerate(chunks)]
         results = sorted((f.result() for f in futs), key=lambda r: r[0])
@@ -177,7 +186,7 @@ def pairing_stage(rep, tier, work, replay_script=None):
     stats, nops, nbad = {}, 0, 0
     by_cls, by_op = {}, {}
     for idx, rows, verdict in results:
-        base = idx * (400 if tier == "quick" else 1500)
+        base = idx * CHUNK[tier]
         nops += verdict["ops"]
         for t, n in verdict["stats"].items():
             stats[t] = stats.get(t, 0) + n
